@@ -47,6 +47,11 @@ func lruKey(kind, k string) interface{} {
 		return n
 	case "struct":
 		return structKey{A: k, B: len(k)}
+	case "nilfirst":
+		// the untyped nil interface is a legal map key: the first key of the alphabet is nil
+		if k == "a" || k == "k0" {
+			return nil
+		}
 	}
 	return k
 }
@@ -224,8 +229,11 @@ func enumLRU(t *testing.T, L int) {
 			x /= len(lruLetters)
 		}
 		for capacity := 0; capacity <= 3; capacity++ {
-			for _, cb := range []bool{false, true} {
-				c := LRUCase{Cap: capacity, Callback: cb, KeyKind: "string", Ops: ops}
+			for _, variant := range []struct {
+				cb bool
+				kk string
+			}{{false, "string"}, {true, "string"}, {true, "nilfirst"}} { // nilfirst: key a is the untyped nil interface
+				c := LRUCase{Cap: capacity, Callback: variant.cb, KeyKind: variant.kk, Ops: ops}
 				msg, st := checkLRUCase(c)
 				count++
 				if st.nontrivial() {
@@ -241,7 +249,7 @@ func enumLRU(t *testing.T, L int) {
 			}
 		}
 	}
-	ev.Exhaustive(fmt.Sprintf("all sequences of length %d over {Store,Load,Delete}x{a,b,c}+Len, capacities 0..3, callback on/off", L), int64(total)*8,
+	ev.Exhaustive(fmt.Sprintf("all sequences of length %d over {Store,Load,Delete}x{a,b,c}+Len, capacities 0..3, callback off / on / on with key a = untyped nil", L), int64(total)*12,
 		fmt.Sprintf("this shard enumerated %d of them (%d/%d)", count, shard, nshard))
 	ev.ExtraAdd("enumerated_sequences", count)
 	ev.ExtraAdd("enumerated_nontrivial_distinct_by_construction", nt)
@@ -254,7 +262,7 @@ func genLRUCase(t *rapid.T, minLen int) LRUCase {
 	c := LRUCase{
 		Cap:      rapid.SampledFrom([]int{0, 1, 2, 3, 4, 8, 64}).Draw(t, "cap"),
 		Callback: rapid.Bool().Draw(t, "callback"),
-		KeyKind:  rapid.SampledFrom([]string{"string", "int", "struct"}).Draw(t, "keykind"),
+		KeyKind:  rapid.SampledFrom([]string{"string", "int", "struct", "nilfirst"}).Draw(t, "keykind"),
 	}
 	nkeys := c.Cap + rapid.IntRange(1, 4).Draw(t, "extraKeys")
 	if rapid.IntRange(0, 4).Draw(t, "fewKeys") == 0 && c.Cap > 1 {
